@@ -29,6 +29,7 @@ pub fn cfg() -> GenCfg {
     g.var_shadow = false;
     g.cond_defs = true;
     g.tests = true;
+    g.straddle_shadow = true;
     g.max_stmts = 28;
     g.constructs_boost = true;
     g
@@ -82,6 +83,7 @@ pub struct Prepared {
     pub rendered: Rendered,
     pub bindings: Bindings,
     pub invoked: BTreeSet<String>,
+    pub features: BTreeSet<String>,
 }
 
 pub fn prepare(entropy: &[u32]) -> Option<Prepared> {
@@ -103,7 +105,7 @@ pub fn prepare(entropy: &[u32]) -> Option<Prepared> {
     let consts = crate::model::expand::pure_consts(&b.prog);
     crate::props::c04::invoked_macros(b.prog.main(), true, &consts, &mut invoked);
     let dead = dead_ranges(&b.prog, &rendered, &invoked);
-    Some(Prepared { dead, text: proj.main_text().to_string(), prog: b.prog, rendered, bindings, invoked })
+    Some(Prepared { dead, text: proj.main_text().to_string(), features: b.stats.features.clone(), prog: b.prog, rendered, bindings, invoked })
 }
 
 /// names of macros whose body contains the byte offset
